@@ -16,8 +16,8 @@ SAFE_TEXT = [b"a", b"a b", b"it's", b"say \"hi\"", b"back\\slash", b"tab\there",
 RISK_TEXT = {
     "F5": [b"trail \nnext", b"a \n\nb", b" \n", b"x  \n  ", b"para one. \npara two."],
     "F35": [b"a\n  indented", b"a\n b", b"first\n    second\n  third"],
-    "F50": [b"a\rb", b"a\r\nb", b"\r"],
-    "F51": [b"a\nb", b"a\n\nb", b"end\n", b"\nstart"],      # spelled single-quoted where the quoting style is kept
+    "F82": [b"a\rb", b"a\r\nb", b"\r"],
+    "F83": [b"a\nb", b"a\n\nb", b"end\n", b"\nstart"],      # spelled single-quoted where the quoting style is kept
 }
 XPATHS = [b"../l = 'x y'", b". != \"a\"", b"../l\n= 'a'", b"count(../ll) > 0 or ../l = \"it's\"", b"/g:c/g:l = 'a\"b'", b"../l = 'tab\there'",
           b"contains(., '//') and not(contains(., '/*'))", b"string-length(.) +  1 > 0", b"../l", b"true()"]
@@ -27,7 +27,7 @@ PATTERNS = [b"[a-z]*", b"\\d+", b"a b", b"[\"']", b"\\\\", b"a|b", b"x{1,3}", b"
 ENUMS = [b"e one", b"two", b"it's", b"a\"b", b"a;b", b"x+y", b"//c", b"\xc3\xbc", b"a\\b", b"{", b"e.f-g_h"]
 IFFS = [b"f1", b"f1 or f2", b"not f2 or f1", b"(f1 and f2)", b"f1 and f1"]
 PLAIN_ARGS = [b"a", b"x+y", b"$", b"a:b", b"1..10", b"a/b", b"\xc3\xbc"]       # arguments that need no quoting
-CLASSES = ["safe", "F5", "F35", "F50", "F51", "F20", "F36", "F52", "F54", "F55", "F56", "F57", "F58", "F59", "F60", "F61"]
+CLASSES = ["safe", "F5", "F35", "F82", "F83", "F20", "F36", "F84", "F86", "F87", "F88", "F89", "F90", "F91", "F92", "F93"]
 
 
 class Gen:
@@ -43,7 +43,7 @@ class Gen:
 
     # The extension instances of a statement and of its simple substatements (units, default, config, status, ...) are kept in
     # one array of the statement that owns them; `own` opens the scope of such an owner.  The compiled printer is faithful
-    # only if all instances of one owner sit at one site (F57), so outside class F57 an owner gets at most one site.
+    # only if all instances of one owner sit at one site (F89), so outside class F89 an owner gets at most one site.
     def own(self, fn):
         self.owners.append({"site": None})
         try:
@@ -59,7 +59,7 @@ class Gen:
         """free text; `block`: the statement is printed in block style (description, reference, ...), where leading
         blanks of continuation lines survive"""
         rng = self.rng
-        if self.cls in ("F5", "F50") and rng.random() < 0.25:
+        if self.cls in ("F5", "F82") and rng.random() < 0.25:
             self.risk_used = True
             return rng.choice(RISK_TEXT[self.cls])
         if self.cls == "F35" and not block and rng.random() < 0.5:
@@ -78,11 +78,11 @@ class Gen:
         if b"\r" in s:
             # CR can only be written inside single quotes
             return b" + \"'\" + ".join(b"'" + p + b"'" for p in s.split(b"'"))
-        if self.cls == "F51" and keeps_quote and free and rng.random() < 0.5:
+        if self.cls == "F83" and keeps_quote and free and rng.random() < 0.5:
             self.risk_used = True
-            return b"'" + rng.choice(RISK_TEXT["F51"]) + b"'"
+            return b"'" + rng.choice(RISK_TEXT["F83"]) + b"'"
         if b"\n" in s:
-            # multi-line text is never single-quoted in the source (where the quoting style is kept that is F51)
+            # multi-line text is never single-quoted in the source (where the quoting style is kept that is F83)
             if rng.random() < 0.5:
                 return dq_source(rng, s, 4)
             return b"\"" + s.replace(b"\\", b"\\\\").replace(b"\"", b"\\\"").replace(b"\n", b"\\n").replace(b"\t", b"\\t") + b"\""
@@ -104,11 +104,11 @@ class Gen:
     # ---- extension instances --------------------------------------------------------------
     def exts(self, p=0.2, site="self", yin=False, nested=False):
         """extension instances (e0 no argument, e1 attribute argument, e2 yin-element argument) at `site` of the current owner;
-        `yin`: the site is a statement whose argument is a YIN element (description, reference, ...; F56)"""
+        `yin`: the site is a statement whose argument is a YIN element (description, reference, ...; F88)"""
         rng, own = self.rng, self.owners[-1]
-        if yin and self.cls != "F56":
+        if yin and self.cls != "F88":
             return []
-        if own["site"] not in (None, site) and self.cls != "F57":
+        if own["site"] not in (None, site) and self.cls != "F89":
             return []
         if rng.random() >= p:
             return []
@@ -125,8 +125,8 @@ class Gen:
             if rng.random() < 0.4:
                 # substatements of an extension instance are stored and printed as generic statements
                 def sub_arg():
-                    # statements of an extension instance that come back from YIN have lost their quoting (F61)
-                    if self.cls == "F61":
+                    # statements of an extension instance that come back from YIN have lost their quoting (F93)
+                    if self.cls == "F93":
                         self.risk_used = True
                         return self.spell(self.text(True), keeps_quote=True)
                     return self.spell(rng.choice(PLAIN_ARGS))
@@ -139,7 +139,7 @@ class Gen:
                 if self.cls == "F20" and rng.random() < 0.7:
                     self.risk_used = True
                     kids.append((rng.choice([b"description", b"reference", b"contact", b"error-message"]), self.spell(self.text(True)), []))
-                if self.cls == "F54" and not nested and rng.random() < 0.7:
+                if self.cls == "F86" and not nested and rng.random() < 0.7:
                     self.risk_used = True
                     kids.append((b"g:e1", self.spell(self.text()), []))
             if r < 0.6:
@@ -172,11 +172,11 @@ class Gen:
     def iffeature(self, p=0.3):
         def mk():
             kids = []
-            if self.cls == "F55" and self.rng.random() < 0.7 and self.owners[-1]["site"] in (None, b"if-feature"):
+            if self.cls == "F87" and self.rng.random() < 0.7 and self.owners[-1]["site"] in (None, b"if-feature"):
                 self.risk_used = True
                 self.owners[-1]["site"] = b"if-feature"
                 kids = [(b"g:e1", self.spell(self.text()), [])]
-            if self.cls == "F51" and self.rng.random() < 0.4:
+            if self.cls == "F83" and self.rng.random() < 0.4:
                 self.risk_used = True
                 return (b"if-feature", b"'f1 or\nf2'", kids)
             if self.cls == "F35" and self.rng.random() < 0.4:
@@ -210,7 +210,7 @@ class Gen:
             for _ in range(self.rng.randrange(0, 3)):
                 p = self.rng.choice(PATTERNS)
                 sp = (b"'" + p + b"'") if (b"'" not in p and self.rng.random() < 0.6) else dq_source(self.rng, p, 8)
-                if self.cls == "F51" and self.rng.random() < 0.5:
+                if self.cls == "F83" and self.rng.random() < 0.5:
                     self.risk_used = True
                     sp = b"'a\nb'"
                 kids.append(self.restr(b"pattern", sp, modifier=self.rng.random() < 0.3))
@@ -221,7 +221,7 @@ class Gen:
         rng = self.rng
 
         def mk():
-            r = rng.randrange(11) if not (self.cls == "F59" and rng.random() < 0.5) else 2
+            r = rng.randrange(11) if not (self.cls == "F91" and rng.random() < 0.5) else 2
             if r == 0:
                 return (b"type", rng.choice([b"int8", b"int16", b"int32", b"int64", b"uint8", b"uint16", b"uint32", b"uint64"]),
                         self.maybe(0.6, lambda: self.restr(b"range", rng.choice([b"\"1..10 | 20..30\"", b"\"min..5\"", b"1..max", b"\"1 .. 10\""]))))
@@ -234,8 +234,8 @@ class Gen:
                 return (b"type", b"enumeration", ens)
             if r == 2:
                 def bit_exts():
-                    # extension instances directly under `bit` are not printed (F59)
-                    if self.cls != "F59":
+                    # extension instances directly under `bit` are not printed (F91)
+                    if self.cls != "F91":
                         return []
                     e = self.exts(0.7)
                     if e:
@@ -302,14 +302,14 @@ class Gen:
             kids = [(b"type", b"string", [])]
             kids += self.maybe(0.3, lambda: self.T(b"units", nonempty=True))
             seen = set()
-            for _ in range(self.rng.randrange(0, 3) if self.cls != "F60" else 3):
+            for _ in range(self.rng.randrange(0, 3) if self.cls != "F92" else 3):
                 t = self.text()
                 if t in seen:
                     continue
                 e = []
                 if not seen:
                     e = self.exts(0.05, site=b"default")
-                elif self.cls == "F60":
+                elif self.cls == "F92":
                     # the YIN parser files extension instances of the n-th default under the first one
                     e = self.exts(0.8, site=b"default")
                     if e:
@@ -358,10 +358,10 @@ class Gen:
 
     def choice(self, nm, depth, cfg):
         def mk():
-            dflt = self.rng.random() < (0.9 if self.cls == "F58" else 0.4)
+            dflt = self.rng.random() < (0.9 if self.cls == "F90" else 0.4)
             kids = ([self.S(b"default", b"ca")] if dflt else []) + self.common()
             ca_extra = []
-            if self.cls == "F58" and dflt:
+            if self.cls == "F90" and dflt:
                 self.risk_used = True
                 ca_extra = [(b"if-feature", b"\"not f1\"", [])]
             kids.append(self.own(lambda: (b"case", b"ca", ca_extra + self.status() + self.descr() + self.exts(0.2) +
@@ -407,7 +407,7 @@ class Gen:
     # ---- module ---------------------------------------------------------------------------
     def module(self):
         rng, nm = self.rng, self.name
-        top = self.cls == "F52"     # extension instances owned by the module itself crash the tree printer
+        top = self.cls == "F84"     # extension instances owned by the module itself crash the tree printer
         kids = [(b"yang-version", b"1.1", []), (b"namespace", b"\"urn:" + nm + b"\"", self.exts(0.3, site=b"namespace") if top else []), (b"prefix", b"g", [])]
         kids += self.maybe(0.5, lambda: self.own(lambda: (b"import", b"ietf-yang-types", [self.S(b"prefix", b"yang")] +
                                                           self.maybe(0.5, lambda: self.S(b"revision-date", b"2013-07-15")) + self.descr(0.4) + self.exts(0.1))))
